@@ -6,13 +6,13 @@ HERE = os.path.dirname(os.path.dirname(os.path.abspath(__file__)))
 CHECKS = {
  # id: (level, technique, text, note, design_ref)
  'C03': ('exploration', 'Hypothesis-generated IR programs + reference decoder/executor walk (refwalk)',
-         'Generated programs with transfers at every distance class, both compression modes; every transfer is decoded and executed by an independent RV32IMAC model and must land on the offset of its label found by walking the output; label table compared. No counterexample among the generated programs of bounded size; not a proof.',
+         'Generated programs with transfers at every distance class, both compression modes; every transfer is decoded and executed by an independent RV32IMAC model and must land on the offset of its label found by walking the output; the reported label table (labels argument, and the -l file of an in-process command-line run for one program in eight) is compared with the walked offsets. No counterexample among the generated programs of bounded size; not a proof.',
          'trusted: vlib/rvref.py (own ISA model), vlib/refwalk.py; refused programs are out of scope and counted', '4 C03'),
  'C04': ('exploration', 'Hypothesis-generated IR programs, compressed and uncompressed outputs both judged by the reference walk',
          'Each generated program is assembled with and without -c and both outputs are judged against the IR by the independent decoder/executor; a discrepancy present only in the compressed run is a violation.',
          'trusted: vlib/rvref.py RVC legality/expansion tables, vlib/refwalk.py', '4 C04'),
  'C05': ('exploration', 'systematic enumeration of pseudo x registers x li values + Hypothesis programs, executed by reference single-step semantics',
-         'All 27 pseudo-instructions over all registers, li over low-13-bits-complete x upper-part classes, plus generated programs; the emitted expansion is executed by rvref.step from many register files and compared with the documented function.',
+         'All 27 pseudo-instructions over all registers, li over low-13-bits-complete x upper-part classes, call/tail at every distance class +-8 bytes in both directions (acceptance and landing) and to constant absolute addresses over all residues mod 4096, plus generated programs; the emitted expansion is executed by rvref.step from many register files and compared with the documented function.',
          'trusted: vlib/rvref.py step semantics; documented effects transcribed from docs/instruction_reference.rst', '4 C05'),
  'C07': ('exploration', 'complete enumeration of relocate_hi/lo (thorough: all of [-2^31,2^32)) + generated %hi/%lo pairs decoded and executed',
          'Quick: low 13 bits complete x structured upper parts; thorough: every 32-bit value in both spellings (exhaustive). Text pairs lui/auipc + addi/lw/sw/jalr are decoded and executed by the reference model.',
@@ -30,7 +30,7 @@ CHECKS = {
          'Both directions are complete in both tiers: every accepted tuple must decode to the same legal instruction; the canonical text of each of the 28,461 legal non-hint halfwords must assemble back to it; counts must match.',
          'trusted: vlib/rvref.py dec16/enc16 transcribed from the RVC chapter', '4 C02'),
  'C06': ('exploration', 'boundary enumeration of every operand of every mnemonic against a three-valued accept/refuse/either table, API and text',
-         'Every operand of the 93 mnemonics is probed over [lo-2*span, hi+2*span] in all residues plus +-2^k+-1 up to 2^33, all register numbers -2..40 and bad spellings; accepted values must encode exactly as the reference, unrepresentable ones must raise. Complete over that window.',
+         'Every operand of the 93 mnemonics is probed over [lo-2*span, hi+2*span] in all residues plus +-2^k+-1 up to 2^33, all register numbers -2..40 and bad spellings; accepted values must encode exactly as the reference, unrepresentable ones must raise; plus a systematic sweep of every compression-candidate register setting x a dense immediate window through the text front end with -c. Complete over that window.',
          'trusted: the three-valued table in checks/c06.py (ISA manual + docs); EITHER for CSR >= 0x800, odd jalr offsets, unsigned c.lui spelling', '4 C06'),
  'C10': ('exploration', 'seeded boundary-value generation of data lines, Hypothesis strings and include_bytes file trees against own byte images',
          'Data directives of every width with values at, just outside and far outside both range ends in three number bases; strings with non-ASCII text and all documented escapes; include_bytes files found adjacent / via -i / in sub-directories from four working directories incl. a decoy.',
@@ -39,7 +39,7 @@ CHECKS = {
          'Constants dict compared with an own evaluator; every program is also rendered with values/registers written literally and must give identical bytes and labels in both compression modes.',
          'trusted: own expression evaluator in vlib/ir.py (Python integer semantics)', '4 C11'),
  'C12': ('exploration', 'Hypothesis-generated IR programs, differential: outcome without -c vs with -c',
-         'Programs biased to RVC operand-set edges with constants / aliases / label-dependent immediates; any program accepted without -c must be accepted with -c.',
+         'Programs biased to RVC operand-set edges with constants / aliases / label-dependent immediates; any program accepted without -c must be accepted with -c. One genuine defect is recorded as a known finding (a distance across an align can grow under -c; narrow signature only_with_c:align_growth, see DESIGN.md section 5); every other -c-only refusal is a violation.',
          'generator soundness rules of DESIGN.md 2.2', '4 C12'),
  'C13': ('exploration', 'Hypothesis-generated IR programs rendered in a canonical and in 4 drawn spelling styles (metamorphic)',
          'The listed rewrites are applied independently per line and operand; bytes, label table and outcome class must equal the canonical rendering.',
@@ -51,7 +51,7 @@ CHECKS = {
          'Whenever the faulty program is refused the error must be AssemblerError carrying the real path and 1-based line of the planted line; CLI exit 1 with File/line and no traceback.',
          'a fault the assembler does not refuse leaves the premise false and is counted', '4 C15'),
  'C16': ('exploration', 'Hypothesis RuleBasedStateMachine over call histories vs one fresh interpreter per (program, options) under varying PYTHONHASHSEED',
-         'Histories of assemble() calls on a pool of programs (failing ones included, shared name space, caller dictionaries reused and scribbled) must agree call by call with fresh-process references; module tables and earlier results must stay untouched.',
+         'Histories of assemble() calls on a pool of programs (failing ones included, shared name space, caller dictionaries reused and scribbled) must agree call by call with fresh-process references; module tables and earlier results must stay untouched. Programs live in files in two source directories with shared and same-named includes; further rules reuse dictionaries filled by earlier calls, hand over a labels dictionary left over from another program, rewrite source files between calls and share one include_dirs list.',
          'fresh interpreter per (program, options) is the reference', '4 C16'),
  'C17': ('exploration', 'Hypothesis option/program combinations run as subprocesses of the real entry point in scratch directories with pre-existing outputs',
          'Success: -o == assemble(), -l parses to the label table, .hex (own Intel HEX reader) == bytes at offset; failure from every pass: exit != 0 and the directory byte-identical.',
@@ -63,7 +63,7 @@ CHECKS = {
          'Every single injection point of runs of 1, 2, 3 and 16 pages x status 1..15 x {spec-conformant, lenient} device, and every oversize length size+1..size+2048: never done!, never exit 0, failure named; oversize never reaches the device.',
          'trusted: vlib/dfusim.py; an escaping USB error counts as non-zero exit', '4 C19'),
  'C20': ('exploration', 'exhaustive eligibility enumeration (expansion of every legal RVC halfword) + Hypothesis programs for monotonicity',
-         'All 28,461 expansions written as literal text in two spellings must come out in 16 bits with -c (exhaustive); generated programs never grow and no label moves up under -c.',
+         'All 28,461 expansions written as literal text in two spellings must come out in 16 bits with -c (exhaustive); generated programs never grow, no label moves up under -c, and every literal-operand instruction inside a generated program whose meaning is in the eligibility set is 16 bits (eligibility in context).',
          'trusted: vlib/rvref.py expand16', '4 C20'),
 }
 
